@@ -68,6 +68,10 @@ def make_route(spec, **kw):
         rkw['methods'] = list(spec['methods'])
     if spec.get('mode'):
         rkw['slash_mode'] = spec['mode']
+    if spec.get('with_render') and 'render' not in rkw:
+        # a renderer on the route: it only ever sees contexts - responses and HTTP errors, returned or raised, pass it by
+        from clastic import Response as _R
+        rkw['render'] = lambda context: _R('rendered:%r' % (context,), mimetype='text/plain', headers={'X-Rendered': '1'})
     if spec.get('route_res'):
         # resources of the route itself; 'res_shared' is a name that applications define too (no conflict: the serving
         # application's value wins)
